@@ -26,6 +26,16 @@ var gaveUpLimit = 5
 // callPlan runs the real strategy in a goroutine guarded by a timeout.
 // status: ok | err | diverges | panic
 func callPlan(strat string, g *Group) (sarama.BalanceStrategyPlan, string) {
+	return callPlanWith(nil, strat, g)
+}
+
+// newSticky: a fresh instance of the sticky strategy's type (no unexported name needed)
+func newSticky() sarama.BalanceStrategy {
+	return reflect.New(reflect.TypeOf(sarama.BalanceStrategySticky).Elem()).Interface().(sarama.BalanceStrategy)
+}
+
+// callPlanWith: inst != nil = use this (long-lived) strategy value instead of a fresh one
+func callPlanWith(inst sarama.BalanceStrategy, strat string, g *Group) (sarama.BalanceStrategyPlan, string) {
 	if gaveUp[strat] >= gaveUpLimit {
 		return nil, "skipped"
 	}
@@ -43,15 +53,17 @@ func callPlan(strat string, g *Group) (sarama.BalanceStrategyPlan, string) {
 			}
 		}()
 		var s sarama.BalanceStrategy
-		switch strat {
-		case "range":
+		switch {
+		case inst != nil:
+			s = inst
+		case strat == "range":
 			s = sarama.BalanceStrategyRange
-		case "rr":
+		case strat == "rr":
 			s = sarama.BalanceStrategyRoundRobin
 		default:
-			// a fresh instance of the sticky strategy's type: BalanceStrategySticky is a shared singleton whose movement
-			// bookkeeping would be shared with a Plan call the harness has given up waiting for
-			s = reflect.New(reflect.TypeOf(sarama.BalanceStrategySticky).Elem()).Interface().(sarama.BalanceStrategy)
+			// BalanceStrategySticky is a shared singleton whose movement bookkeeping would be shared with a Plan call
+			// the harness has given up waiting for
+			s = newSticky()
 		}
 		p, err := s.Plan(members, topics)
 		if err != nil {
@@ -230,6 +242,12 @@ func doPlan(strat, kind string, g *Group) (Asg, map[string]string) {
 			run.Nontrivial(strat + " " + ms + " " + ts)
 		}
 	}
+	judge(strat, kind, g, a, v, op)
+	return a, v
+}
+
+// judge: oracle failures for one plan (C08: validity; C13: balance / stickiness of valid plans)
+func judge(strat, kind string, g *Group, a Asg, v map[string]string, op string) {
 	if v["valid"] == "0" {
 		if PROP == "C08" {
 			why, detail := checkValid(g, a)
@@ -237,12 +255,12 @@ func doPlan(strat, kind string, g *Group) (Asg, map[string]string) {
 			if strat == "sticky" {
 				cls = stickyClass(g, why, detail)
 			}
-			run.IOFail(strat+"-"+why+cls, op, why+": "+detail)
+			run.IOFail(strat+sigTag+"-"+why+cls, op, why+": "+detail)
 		}
-		return a, v
+		return
 	}
 	if PROP == "C13" {
-		fail := func(sig, what string) { run.IOFail(sig, op, what) }
+		fail := func(sig, what string) { run.IOFail(strings.Replace(sig, "sticky-", "sticky"+sigTag+"-", 1), op, what) }
 		if v["bal"] == "0" {
 			fail("sticky-unbalanced", "a member holds >= 2 partitions more than a member that could take one of them")
 		}
@@ -281,7 +299,6 @@ func doPlan(strat, kind string, g *Group) (Asg, map[string]string) {
 			fail("sticky-pairwise-swap", "two members exchanged partitions of one topic")
 		}
 	}
-	return a, v
 }
 
 func piece(op, ans string) {
